@@ -27,11 +27,9 @@ DInt == IF Wide THEN {IntV(-2), IntV(0), IntV(1), IntV(3)} ELSE {IntV(0), IntV(1
 DFloat == IF Wide THEN {Fin(-3, 1), FZero, Fin(1, 1), Fin(2, 0)} ELSE {Fin(-3, 1), FZero, Fin(2, 0)}
 DomOf(ty) == IF ty = "f" THEN DFloat ELSE DInt
 
-VarIds(k) == {Pairs[k].vars[j].id : j \in 1..Len(Pairs[k].vars)}
-TyOfVar(k, id) == (CHOOSE j \in 1..Len(Pairs[k].vars) : Pairs[k].vars[j].id = id) 
+IdsOfTy(seq, ty) == {seq[j].id : j \in {j \in 1..Len(seq) : seq[j].ty = ty}}
 Valuations(k) ==
-    {f \in [VarIds(k) -> DInt \cup DFloat] :
-        \A j \in 1..Len(Pairs[k].vars) : f[Pairs[k].vars[j].id] \in DomOf(Pairs[k].vars[j].ty)}
+    {fi @@ ff : fi \in [IdsOfTy(Pairs[k].vars, "i") -> DInt], ff \in [IdsOfTy(Pairs[k].vars, "f") -> DFloat]}
 Diffs(k) == IF Pairs[k].diffs THEN 0..3 ELSE {0}
 
 VARIABLES i, diff, a, b, phase
